@@ -22,7 +22,7 @@ ATOL = 1e-11
 RULE = ('objects: pardim 1-3, dim 2-3(4), rational with positive weights, open/periodic bases per direction, non-square shapes; '
         'parameters: knots, ends, span interiors, outside (ValueError), periodic points periods away; forms: grid lists, scalars, '
         'tensor=False, __call__, default control points (identity map), bounding box.  non-trivial = parameters inside the domain.')
-REQUIRED_TAGS = ['form=seq', 'seq:end-weight-not-one', 'seq:scalar-evaluate-then-more', 'form=mixed', 'mixed:pardim=3', 'equal-weights-not-one', 'form=grid', 'form=scalar', 'form=pointwise', 'form=default', 'outside', 'rational', 'periodic-dir', 'pardim=1', 'pardim=2', 'pardim=3', 'form=bbox']
+REQUIRED_TAGS = ['form=shared-argument', 'shared:grid', 'form=seq', 'seq:end-weight-not-one', 'seq:scalar-evaluate-then-more', 'form=mixed', 'mixed:pardim=3', 'equal-weights-not-one', 'form=grid', 'form=scalar', 'form=pointwise', 'form=default', 'outside', 'rational', 'periodic-dir', 'pardim=1', 'pardim=2', 'pardim=3', 'form=bbox']
 
 
 def _params(rng, o, n_per_dir, outside=False):
@@ -88,6 +88,11 @@ def generate(rng, tier):
         # then divided by its weight in place shows up only in the SECOND call)
         if oi % 2 == 0:
             specs.append(_seq_spec(rng, o))
+        # two directions whose bases are affine images of each other (same order, same normalised knot
+        # pattern, different range - e.g. after reparam of one direction) evaluated with the SAME list
+        # object for both directions: a cache keyed on `matches()`/identity of the argument shows here
+        if pardim >= 2 and oi % 3 == 0:
+            specs.append(_shared_param_spec(rng, pardim))
         # default control points: identity map
         if all(b['order'] >= 2 for b in o['bases']):
             specs.append({'form': 'default', 'bases': o['bases'], 'rational': bool(rng.random() < 0.3),
@@ -105,6 +110,42 @@ def _end_weight_object(rng, pardim):
     arr[..., -1:] = w_new
     o['cps'] = arr.tolist()
     return o
+
+
+def _shared_param_spec(rng, pardim):
+    p = rng.randint(2, 4)
+    b0 = gen.open_basis(rng, p, n_interior=rng.randint(0, 2))
+    a = rng.choice([2.0, 0.5, 4.0])
+    c = rng.choice([0.0, 1.0, -0.5])
+    s0 = b0['knots'][0]
+    b1 = {'order': p, 'periodic': -1, 'knots': [s0 + a * (t - s0) + c * 0 for t in b0['knots']]}   # same start, scaled range
+    if pardim == 2:
+        bases, shared = [b0, b1], [0, 1]
+    else:
+        mid = gen.open_basis(rng, rng.randint(2, 3), n_interior=rng.randint(0, 1))
+        bases, shared = [b0, mid, b1], [0, 2]
+    shape = [gen.basis_info(b)['n'] for b in bases]
+    rational = rng.random() < 0.5
+    dim = 3
+    o = {'bases': bases, 'cps': gen.rand_cps(rng, shape, dim + (1 if rational else 0), rational), 'rational': rational}
+    # points in the intersection of the two domains
+    i0, i1 = gen.basis_info(b0), gen.basis_info(b1)
+    lo, hi = max(i0['start'], i1['start']), min(i0['end'], i1['end'])
+    pts = sorted({lo, hi, lo + (hi - lo) * 0.25, lo + (hi - lo) * 0.5, lo + (hi - lo) * 0.75})
+    params = []
+    for k, b in enumerate(bases):
+        params.append(list(pts) if k in shared else _params(rng, {'bases': [b]}, 2)[0])
+    tensor = rng.random() < 0.7
+    if not tensor:
+        m = len(pts)
+        params = [(p_ if len(p_) == m else (p_ * m)[:m]) for p_ in params]
+    return {'form': 'shared', 'obj': o, 'params': params, 'shared': shared, 'tensor': tensor,
+            'array': rng.random() < 0.5}
+
+
+def _shared_args(s):
+    the = np.array(s['params'][s['shared'][0]], dtype=float) if s['array'] else list(s['params'][s['shared'][0]])
+    return [the if k in s['shared'] else list(p_) for k, p_ in enumerate(s['params'])]
 
 
 def _seq_spec(rng, o):
@@ -155,6 +196,8 @@ def _seq_shape(o, c):
 
 def model_line(s):
     f = s['form']
+    if f == 'shared':
+        return line('obj_eval', gen.enc_object(s['obj']), gen.TOL, s['params'], bool(s['tensor']))
     if f == 'seq':
         return line('obj_eval_seq', gen.enc_object(s['obj']), gen.TOL, [[c['params'], bool(c['tensor'])] for c in s['calls']])
     if f == 'bbox':
@@ -179,6 +222,9 @@ def run_impl(sp, s):
         o = cls(*bases, rational=s['rational'])
         return [gen.obj_observables(o), _shape_flat(o.evaluate(*s['params']))]
     o = gen.mk_object(sp, s['obj'])
+    if f == 'shared':
+        args = _shared_args(s)
+        return _shape_flat(o.evaluate(*args) if s['tensor'] else o.evaluate(*args, tensor=False))
     if f == 'seq':
         out = []
         for c in s['calls']:
@@ -258,6 +304,23 @@ def oracle(sp, s):
                 break
         return fails
     o = gen.mk_object(sp, s['obj'])
+    if f == 'shared':
+        import itertools
+        args = _shared_args(s)
+        res = np.asarray(o.evaluate(*args) if s['tensor'] else o.evaluate(*args, tensor=False))
+        pdm = len(s['params'])
+        idxs = list(itertools.product(*[range(len(p_)) for p_ in s['params']])) if s['tensor'] else [(i,) * pdm for i in range(len(s['params'][0]))]
+        exp = tuple(len(p_) for p_ in s['params']) + (o.dimension,) if s['tensor'] else (len(s['params'][0]), o.dimension)
+        if res.shape != exp:
+            return ['shared-argument call returned shape %s, expected %s' % (res.shape, exp)]
+        for idx in idxs:
+            want = exact.nurbs_point(s['obj'], [s['params'][k][idx[k]] for k in range(pdm)])
+            got = res[idx] if s['tensor'] else res[idx[0]]
+            if not exact.close(got, want, RTOL, 1e-10):
+                return ['the same parameter %s passed for directions %r: evaluation at %r differs from the NURBS definition: %r vs %r' % (
+                    'array' if s['array'] else 'list', s['shared'], [s['params'][k][idx[k]] for k in range(pdm)],
+                    np.asarray(got).tolist(), [float(x) for x in want])]
+        return []
     if f == 'seq':
         import itertools
         before = np.array(o.controlpoints, copy=True)
@@ -368,6 +431,8 @@ def compare(s, iv, mv):
 
 
 def tags(s, res):
+    if s['form'] == 'shared':
+        return ['form=shared-argument', 'pardim=%d' % len(s['params']), 'shared:' + ('grid' if s['tensor'] else 'pointwise')] + (['rational'] if s['obj']['rational'] else [])
     if s['form'] == 'seq':
         out = ['form=seq', 'pardim=%d' % len(s['obj']['bases'])]
         if s['obj']['rational']:
@@ -397,7 +462,7 @@ def tags(s, res):
 
 
 def nontrivial(s, res):
-    if s['form'] == 'seq':
+    if s['form'] in ('seq', 'shared'):
         return True
     if 'params' not in s:
         return True
